@@ -254,7 +254,8 @@ Proof.
     + apply IH in H. destruct H as (Hr & Hb & Hh & Hl). repeat split; try apply Hr; auto.
       intros a' d. rewrite Hh. cbn [amt_of fst snd]. destruct (a' =? a), (d0 =? d); lia.
     + destruct (v <? 0) eqn:Evn; [discriminate|].
-      destruct (bal_of s a d0 - hold_of s a d0 <? v) eqn:Esp; [discriminate|].
+      destruct (spendable s a d0 <? v) eqn:Esp; [discriminate|].
+      unfold spendable, vlock_of in Esp.
       apply IH in H. destruct H as (Hr & Hb & Hh & Hl). repeat split; try apply Hr; auto.
       * intros a' d. rewrite Hh, hold_of_aset. cbn [amt_of fst snd]. zeqb; cbn [andb]; lia.
       * intros Hle. apply Hl. intros a' d. rewrite hold_of_aset.
@@ -299,7 +300,8 @@ Proof.
   - injection H as <-. apply only_bals_refl.
   - destruct (v =? 0); [apply IH; exact H|].
     destruct (v <? 0) eqn:Evn; [discriminate|].
-    destruct (bal_of s a d0 - hold_of s a d0 <? v) eqn:Esp; [discriminate|].
+    destruct (spendable s a d0 <? v) eqn:Esp; [discriminate|].
+    unfold spendable, vlock_of in Esp.
     apply IH in H. eapply only_bals_trans; [|exact H].
     split; [repeat split|]. split; [reflexivity|].
     intros Hle a' d. rewrite bal_of_aset.
@@ -343,7 +345,8 @@ Proof.
   intros Hle a d. unfold hold_of, bal_of. cbn [holds bals set_bals].
   destruct (in_dec key2_eq_dec (a, d) (map fst xs)) as [Hin|Hout].
   - apply in_map_iff in Hin. destruct Hin as (x & Ex & Hx).
-    rewrite forallb_forall in Hall. specialize (Hall x Hx). rewrite Ex in Hall. lia.
+    rewrite forallb_forall in Hall. specialize (Hall x Hx). rewrite Ex in Hall.
+    destruct (snd x <? 0); lia.
   - rewrite net_untouched by exact Hout. exact (Hle a d).
 Qed.
 
@@ -601,9 +604,10 @@ Proof.
     eapply (afind_in Z.eqb Z.eqb_spec). exact Ef.
 Qed.
 
-Lemma settle_pres fulls part xfers s s' : settle fulls part xfers s = Some s' -> pres s s'.
+Lemma settle_pres req fulls part xfers s s' : settle req fulls part xfers s = Some s' -> pres s s'.
 Proof.
-  unfold settle, fill_full. destruct (negb (nodupb _)); [discriminate|].
+  unfold settle, fill_full. destruct (negb (nodupb req)); [discriminate|].
+  destruct (negb (nodupb _)); [discriminate|].
   destruct (fold_opt cancel_order fulls s) as [s1|] eqn:E1; cbn [obind]; [|discriminate].
   assert (P1 : pres s s1).
   { eapply fold_opt_pres; [|exact E1]. intros x t t' Hx. eapply eff_pres, cancel_order_eff, Hx. }
@@ -616,12 +620,13 @@ Proof.
     eapply only_bals_pres, apply_net_spec, E3.
 Qed.
 
-Lemma settle_single_eff p xfers s s' :
-  settle [] (Some p) xfers s = Some s' ->
+Lemma settle_single_eff req p xfers s s' :
+  settle req [] (Some p) xfers s = Some s' ->
   exists o fl, afind Z.eqb (fst p) (orders s) = Some o /\ split_order o (snd p) = Some fl /\
                eff s s' (fun a d => - order_req a d (fst p, fst fl)).
 Proof.
-  unfold settle. destruct (negb (nodupb _)); [discriminate|]. cbn [fold_opt obind].
+  unfold settle. destruct (negb (nodupb req)); [discriminate|].
+  destruct (negb (nodupb _)); [discriminate|]. cbn [fold_opt obind].
   destruct (fill_partial (fst p) (snd p) s) as [s2|] eqn:E2; cbn [obind]; [|discriminate].
   intros E3. apply fill_partial_eff in E2. destruct E2 as (o & fl & Ef & Esp & E2).
   exists o, fl. split; [exact Ef|]. split; [exact Esp|].
@@ -668,20 +673,31 @@ Proof.
   intros H. eapply bals_then_eff; [eapply spend_spec, Es | eapply add_commitment_eff, H].
 Qed.
 
+Lemma release_commitment_eff m acct amount s s' :
+  release_commitment m (acct, amount) s = Some s' ->
+  exists nr, release_split (cget (m, acct) (commits s)) amount = Some nr /\
+             eff s s' (fun a d => if acct =? a then - amt_of (snd nr) d else 0).
+Proof.
+  unfold release_commitment. cbn [fst snd].
+  destruct (release_split (cget (m, acct) (commits s)) amount) as [nr|] eqn:Esp; cbn [obind]; [|discriminate].
+  destruct (release_hold s acct (snd nr)) as [s1|] eqn:Er; cbn [obind]; [|discriminate].
+  intros H. injection H as <-. exists nr. split; [reflexivity|].
+  apply release_hold_spec in Er.
+  eapply eff_ext; [|eapply commit_core; [exact Er|]].
+  - intros a d. cbn beta. destruct (acct =? a); lia.
+  - intros d. unfold release_split in Esp.
+    destruct (negb (coins_nonneg amount)); [discriminate|].
+    destruct (coins_is_zero (cget (m, acct) (commits s))); [discriminate|].
+    destruct (negb (coins_is_zero amount)).
+    + destruct (coins_geb (cget (m, acct) (commits s)) amount); [|discriminate].
+      injection Esp as <-. cbn [fst snd]. rewrite amt_of_sub. lia.
+    + injection Esp as <-. cbn [fst snd amt_of]. lia.
+Qed.
+
 Lemma release_commitment_pres m e s s' : release_commitment m e s = Some s' -> pres s s'.
 Proof.
-  destruct e as [acct amount]. unfold release_commitment. cbn [fst snd].
-  destruct (negb (coins_nonneg amount)); [discriminate|].
-  destruct (coins_is_zero (cget (m, acct) (commits s))); [discriminate|].
-  destruct (coins_is_zero amount); cbn [negb].
-  - cbn [obind fst snd].
-    destruct (release_hold s acct (cget (m, acct) (commits s))) as [s1|] eqn:Er; cbn [obind]; [|discriminate].
-    intros H. injection H as <-. apply release_hold_spec in Er.
-    eapply eff_pres, commit_core; [exact Er|]. intros d. cbn [amt_of]. lia.
-  - destruct (coins_geb (cget (m, acct) (commits s)) amount); cbn [obind fst snd]; [|discriminate].
-    destruct (release_hold s acct amount) as [s1|] eqn:Er; cbn [obind]; [|discriminate].
-    intros H. injection H as <-. apply release_hold_spec in Er.
-    eapply eff_pres, commit_core; [exact Er|]. intros d. rewrite amt_of_sub. lia.
+  destruct e as [acct amount]. intros H. apply release_commitment_eff in H.
+  destruct H as (nr & _ & H). eapply eff_pres, H.
 Qed.
 
 Lemma release_commitments_pres m es s s' : release_commitments m es s = Some s' -> pres s s'.
@@ -689,7 +705,8 @@ Proof. unfold release_commitments. apply fold_opt_pres. apply release_commitment
 
 Lemma settle_commitments_pres m i o f s s' : settle_commitments m i o f s = Some s' -> pres s s'.
 Proof.
-  unfold settle_commitments. destruct (negb (coins_eqb _ _)); [discriminate|].
+  unfold settle_commitments. destruct (negb (_ && _ && _)); [discriminate|].
+  destruct (negb (coins_eqb _ _)); [discriminate|].
   destruct (release_commitments m _ s) as [s1|] eqn:E1; cbn [obind]; [|discriminate].
   destruct (apply_net s1 _) as [s2|] eqn:E2; cbn [obind]; [|discriminate].
   intros E3. eapply pres_trans; [eapply release_commitments_pres, E1|].
@@ -801,11 +818,25 @@ Proof.
 Qed.
 
 (** * Steps and histories. *)
+Lemma cancel_order_by_eff signer priv id s s' :
+  cancel_order_by signer priv id s = Some s' -> eff s s' (fun a d => - order_req_of s id a d).
+Proof.
+  unfold cancel_order_by.
+  destruct (afind Z.eqb id (orders s)) as [o|]; cbn [obind]; [|discriminate].
+  destruct (_ || _); [|discriminate]. apply cancel_order_eff.
+Qed.
+
+Lemma set_ext_id_same id s s' : set_ext_id id s = Some s' -> s' = s.
+Proof.
+  unfold set_ext_id. destruct (afind Z.eqb id (orders s)); cbn [obind]; [|discriminate].
+  intros H. injection H as <-. reflexivity.
+Qed.
+
 Lemma op_fun_pres o s s' : op_fun o s = Some s' -> pres s s'.
 Proof.
   destruct o; cbn [op_fun].
   - apply create_order_pres.
-  - intros H. eapply eff_pres, cancel_order_eff, H.
+  - intros H. eapply eff_pres, cancel_order_by_eff, H.
   - apply settle_pres.
   - intros H. eapply eff_pres, commit_funds_eff, H.
   - destruct entries as [|e r]; [discriminate|]. apply release_commitments_pres.
@@ -817,6 +848,8 @@ Proof.
   - apply pay_cancel_pres.
   - intros H. eapply eff_pres, pay_retarget_eff, H.
   - intros H. injection H as <-. apply pres_refl.
+  - intros H. apply set_ext_id_same in H. subst s'. apply pres_refl.
+  - intros H. eapply only_bals_pres, credit_spec, H.
   - apply close_market_pres.
 Qed.
 
@@ -860,28 +893,6 @@ Proof.
   unfold step. destruct (op_adm o).
   - destruct (op_fun o s); intros H; injection H as <- <-; congruence.
   - intros H. injection H as <- <-. reflexivity.
-Qed.
-
-Lemma item_delta s o s' a d :
-  single_item o = true -> step s o = (s', ROk) ->
-  hold_of s' a d - hold_of s a d = reserved_delta s o a d.
-Proof.
-  intros Hs Hstep. unfold step in Hstep.
-  destruct (op_adm o); [|discriminate].
-  destruct (op_fun o s) as [s1|] eqn:E; [|discriminate].
-  injection Hstep as <-.
-  destruct o; cbn [single_item] in Hs; try discriminate; cbn [op_fun] in E; cbn [reserved_delta].
-  - apply create_order_spec in E. destruct E as (Hh & _). rewrite Hh. lia.
-  - apply cancel_order_eff in E. destruct E as (Hh & _). rewrite Hh. lia.
-  - destruct fulls as [|x r]; [|discriminate]. destruct part as [p|]; [|discriminate].
-    apply settle_single_eff in E. destruct E as (o & fl & Ef & Esp & Hh & _).
-    rewrite Hh, Ef, Esp. cbn [sum_by fold_right]. lia.
-  - apply commit_funds_eff in E. destruct E as (Hh & _). rewrite Hh. lia.
-  - apply pay_create_eff in E. destruct E as (Hh & _). rewrite Hh. lia.
-  - apply pay_accept_eff in E. destruct E as (Hh & _). rewrite Hh. lia.
-  - apply pay_reject_eff in E. destruct E as (Hh & _). rewrite Hh. lia.
-  - apply pay_retarget_eff in E. destruct E as (Hh & _). rewrite Hh. lia.
-  - injection E as <-. lia.
 Qed.
 
 (** * Genesis. *)
